@@ -1,5 +1,6 @@
 """C15: parametric gates follow their shared parameters; parameter access is atomic."""
 from ..common import *
+import math
 from ..gatecases import rand_vec
 
 TRUSTED = [
@@ -15,7 +16,7 @@ KCOQ = {"RX": "KRX", "RY": "KRY", "RZ": "KRZ", "P": "KP", "RyPhase": "KRyPhase",
 def gen_history(rng, n, length):
     ops, hs, ncirc = [], [], 0          # hs: arity per handle
     pend = 0
-    def vals(k): return [float2bits(rng.choice([rng.uniform(-3.2, 3.2), rng.uniform(-3.2, 3.2), rng.uniform(6.4, 12.4), -rng.uniform(6.4, 12.4)])) for _ in range(k)]     # also beyond one turn
+    def vals(k): return [float2bits(rng.choice([rng.uniform(-3.2, 3.2), rng.uniform(-3.2, 3.2), rng.uniform(6.4, 12.4), -rng.uniform(6.4, 12.4), rng.choice([0.0, -0.0, math.pi, -math.pi, 2 * math.pi])])) for _ in range(k)]     # also beyond one turn, and exactly zero / pi in single positions
     for k in (1, 2, 3):
         ops.append({"o": "new", "vals": vals(k)}); hs.append(k)
     for _ in range(length):
@@ -85,6 +86,28 @@ def gen_cases(ctx):
                     {"o": "set", "h": 1, "vals": [float2bits(-1.3 + 0.2 * j) for j in range(k)]}, {"o": "exec", "c": 0}, {"o": "export", "c": 0},
                     {"o": "set", "h": 3, "vals": [float2bits(2.1 - 0.3 * j) for j in range(k)]}, {"o": "exec", "c": 0}, {"o": "export", "c": 0}]
             cases.append({"op": "param", "mode": "history", "n": 5, "v": rand_vec(rng, 5, "normalised"), "ops": ops, "thr": 10})
+    # one position of the parameter block set EXACTLY to 0 / -0 / pi while the others stay generic (the start of a sweep): still the
+    # gate of those values, in execution and in the exported text
+    for kind in ARITY:
+        k = ARITY[kind]
+        for pos in range(k):
+            for special in (0.0, -0.0, math.pi):
+                base = [0.9 + 0.4 * j for j in range(k)]; sp = list(base); sp[pos] = special
+                ops = [{"o": "new", "vals": [float2bits(x) for x in sp]}, {"o": "add", "kind": kind, "h": 0, "t": 0, "cs": []}, {"o": "add", "kind": kind, "h": 0, "t": 2 if kind != "Match" else 2, "cs": [4]},
+                       {"o": "build"}, {"o": "exec", "c": 0}, {"o": "export", "c": 0}, {"o": "set", "h": 0, "vals": [float2bits(x) for x in base]}, {"o": "exec", "c": 0},
+                       {"o": "set", "h": 0, "vals": [float2bits(x) for x in sp]}, {"o": "exec", "c": 0}, {"o": "export", "c": 0}]
+                cases.append({"op": "param", "mode": "history", "n": 5, "v": rand_vec(rng, 5, "normalised"), "ops": ops, "thr": 10})
+    # a rejected multi-gate call (list too short / too long) must leave the builder as it was: build and run after the rejection,
+    # then retry with a matching list on the same builder
+    for kind in [k for k in ARITY if k != "Match"]:
+        for cs in ([], [4]):
+            for nh in (1, 2, 4, 5):
+                k = ARITY[kind]
+                ops = [{"o": "new", "vals": [float2bits(0.25 + 0.31 * i + 0.13 * j) for j in range(k)]} for i in range(5)]
+                ops += [{"o": "add", "kind": kind, "h": 4, "t": 1, "cs": []},
+                        {"o": "add_multi", "kind": kind, "hs": list(range(nh)), "ts": [2, 0, 3], "cs": cs}, {"o": "build"}, {"o": "exec", "c": 0}, {"o": "export", "c": 0},
+                        {"o": "add_multi", "kind": kind, "hs": [0, 1, 2], "ts": [2, 0, 3], "cs": cs}, {"o": "build_final"}, {"o": "exec", "c": 1}, {"o": "exec", "c": 0}]
+                cases.append({"op": "param", "mode": "history", "n": 5, "v": rand_vec(rng, 5, "normalised"), "ops": ops, "thr": 10})
     # one parametric gate with several targets (the public enum variant built directly): one concrete gate per target, all following
     # the one parameter
     for kind in [k for k in ARITY if k != "Match"]:
